@@ -46,6 +46,89 @@ class Sym:
         return hash(self.name)
 
 
+class Bytes:
+    def __init__(self, b):
+        self.b = list(b)
+
+    def __repr__(self):
+        return "bytes(%d)" % len(self.b)
+
+
+class StrCat:
+    """string with symbolic parts"""
+
+    def __init__(self, parts):
+        self.parts = []
+        for p in parts:
+            if isinstance(p, StrCat):
+                self.parts.extend(p.parts)
+            elif isinstance(p, str) and self.parts and isinstance(self.parts[-1], str):
+                self.parts[-1] += p
+            else:
+                self.parts.append(p)
+
+    def __repr__(self):
+        return "str(%s)" % " ++ ".join(repr(p) for p in self.parts)
+
+    def __eq__(self, o):
+        return isinstance(o, StrCat) and repr(o) == repr(self)
+
+    def __hash__(self):
+        return hash(repr(self))
+
+
+def strcat(parts):
+    s = StrCat(parts)
+    if all(isinstance(p, str) for p in s.parts):
+        return "".join(s.parts)
+    return s
+
+
+class FmtArgs:
+    def __init__(self, parts):
+        self.parts = parts
+
+    def __repr__(self):
+        return "fmt(%r)" % (self.parts,)
+
+
+def decode_template(b, args):
+    """decode core::fmt's compact template byte sequence into a list of literal pieces and argument values"""
+    out = []
+    i = 0
+    nxt = 0
+    while i < len(b):
+        n = b[i]
+        i += 1
+        if n == 0:
+            break
+        if n < 0x80:
+            out.append(bytes(b[i:i + n]).decode("utf-8", "replace"))
+            i += n
+        elif n == 0x80:
+            ln = b[i] | (b[i + 1] << 8)
+            i += 2
+            out.append(bytes(b[i:i + ln]).decode("utf-8", "replace"))
+            i += ln
+        elif n & 0xC0 == 0xC0:
+            if n & 0x01:
+                i += 4
+            if n & 0x02:
+                i += 2
+            if n & 0x04:
+                i += 2
+            idx = nxt
+            if n & 0x08:
+                idx = b[i] | (b[i + 1] << 8)
+                i += 2
+            nxt = idx + 1
+            out.append(args[idx] if idx < len(args) else Unknown("fmtarg"))
+        else:
+            out.append(Unknown("template"))
+            break
+    return out
+
+
 class DiscrOf:
     """discriminant of a symbolic value at a place; a switch on it forks per variant and refines the place"""
 
@@ -286,6 +369,8 @@ class Interp:
                 return o["val"]
             if "str" in o:
                 return o["str"]
+            if "bytes" in o:
+                return Bytes(o["bytes"])
             if "fn" in o:
                 return FnVal(o.get("fn_res") or o["fn"])
             if "closure" in o:
@@ -300,7 +385,7 @@ class Interp:
                     if "str" in c:
                         return c["str"]
                     if "repr" in c:
-                        return parse_repr(c["repr"], c["ty"], self.fx)
+                        return parse_repr(c["repr"], c["ty"], self.fx, crate=o["def"].split("::")[0])
                 return Unknown("const " + o["def"])
             if o["ty"] == "()":
                 return Adt(None, None, {})
@@ -422,6 +507,8 @@ class Interp:
                 fr.si += 1
                 if s["k"] == "assign":
                     v = self.rvalue(fr, s["rv"])
+                    if isinstance(v, int) and not isinstance(v, bool) and s["rv"]["k"] in ("unop", "binop") and not s["lhs"]["p"]:
+                        v = _wrap_int(v, fr.f["locals"][s["lhs"]["l"]]["ty"])
                     if s["rv"]["k"] == "agg" and s["rv"].get("agg") == "array":
                         fr.last_array = v       # `vec![..]` writes the array through a raw box pointer, see box_assume_init_into_vec_unsafe
                     self.write_place(fr, s["lhs"], v)
@@ -539,13 +626,35 @@ class Interp:
             r = h(self, p, fr, t, args)
             if r is not NotImplemented:
                 return self._finish_call(fr, t, r)
-        r = std_model(self, p, fr, t, args)
-        if r is not NotImplemented:
-            return self._finish_call(fr, t, r)
-        key = t.get("resolved_key") or (t.get("callee_key") if not t.get("callee_trait") else None)
+        key = None
+        if t.get("callee_name") == "into" and t.get("callee_trait") == "core::convert::Into":
+            # blanket Into: dispatch to the workspace `From` impl of the destination type
+            dl = fr.f["locals"][t["dest"]["l"]]
+            dadt = dl.get("adt")
+            if dadt and dadt.split("::")[0] in self.fx.crates:
+                src = self.deref(args[0])
+                for imp in self.fx.impls:
+                    if imp.get("trait") == "core::convert::From" and imp.get("self_adt") == dadt:
+                        for m in imp["methods"]:
+                            if m["name"] == "from" and m["key"] in self.fx.fns:
+                                pty = self.fx.fns[m["key"]]["locals"][1]["ty"]
+                                if _value_matches_type(src, pty):
+                                    key = m["key"]
+        if key is None:
+            r = std_model(self, p, fr, t, args)
+            if r is not NotImplemented:
+                return self._finish_call(fr, t, r)
+            key = t.get("resolved_key") or (t.get("callee_key") if not t.get("callee_trait") else None)
         fv = None
         if key is None and t["func"].get("k") in ("copy", "move"):
             fv = self.operand(fr, t["func"])
+        if key is None and isinstance(fv, FnVal):
+            cands = self.fx.by_path.get(fv.path) or []
+            cands = [c for c in cands if "{promoted" not in c["key"]]
+            if cands:
+                key = cands[0]["key"]
+                if fv.closure and fv.captures is not None:
+                    pass
         callee = self.fx.fns.get(key) if key else None
         depth = getattr(fr, "depth", 0)
         if callee is not None and depth < self.max_depth and (self.inline is None or self.inline(key)):
@@ -565,6 +674,18 @@ class Interp:
             return "diverge"
         fr.bb, fr.si = t["target"], 0
         return "done"
+
+
+def _value_matches_type(v, ty):
+    if isinstance(v, bool):
+        return ty == "bool"
+    if isinstance(v, int):
+        return ty in ("i8", "i16", "i32", "i64", "i128", "isize", "u8", "u16", "u32", "u64", "u128", "usize")
+    if isinstance(v, Adt) and v.path:
+        return ty.split("<")[0].split("::")[-1] == v.path.split("::")[-1]
+    if isinstance(v, (str, StrCat)):
+        return "str" in ty.lower()
+    return True
 
 
 def _wrap_int(v, ty):
@@ -611,7 +732,7 @@ def _binop(op, a, b):
     return Unknown("binop %s %r %r" % (op, a, b))
 
 
-def parse_repr(s, ty, fx):
+def parse_repr(s, ty, fx, crate=None):
     """parse rustc's rendering of an evaluated ADT constant, e.g. `config::Register(4_usize)`,
     `config::Register::X(2_usize)`, `config::Immediate {{ val: 0_i64 }}`"""
     import re
@@ -626,7 +747,7 @@ def parse_repr(s, ty, fx):
     if m:
         path, inner = m.group(1), m.group(2)
         vals = [num(x) for x in inner.split(",")] if inner.strip() else []
-        adt, variant = _resolve_adt(path, ty, fx)
+        adt, variant = _resolve_adt(path, ty, fx, crate)
         return Adt(adt, variant, {str(i): (v if v is not None else Unknown("repr")) for i, v in enumerate(vals)})
     m = re.fullmatch(r"([A-Za-z0-9_:]+)\s*\{(.*)\}", s)
     if m:
@@ -636,15 +757,15 @@ def parse_repr(s, ty, fx):
             if ":" in part:
                 n, v = part.split(":", 1)
                 fields[n.strip()] = num(v) if num(v) is not None else Unknown("repr")
-        adt, variant = _resolve_adt(path, ty, fx)
+        adt, variant = _resolve_adt(path, ty, fx, crate)
         return Adt(adt, variant, fields)
-    adt, variant = _resolve_adt(s, ty, fx)
+    adt, variant = _resolve_adt(s, ty, fx, crate)
     if adt:
         return Adt(adt, variant, {})
     return Unknown("repr " + s)
 
 
-def _resolve_adt(path, ty, fx):
+def _resolve_adt(path, ty, fx, crate=None):
     # ty is the declared type string (visible path); find the ADT whose path ends with the type's last segments
     last = path.split("::")
     cands = [a for a in fx.adts if a.split("::")[-1] == ty.split("::")[-1].split("<")[0]]
@@ -653,7 +774,7 @@ def _resolve_adt(path, ty, fx):
     # prefer same crate as in ty
     best = cands[0]
     for c in cands:
-        if c.split("::")[0] == ty.split("::")[0]:
+        if c.split("::")[0] == (crate or ty.split("::")[0]):
             best = c
     A = fx.adts[best]
     if A["kind"] == "enum":
@@ -750,12 +871,49 @@ def std_model(I, p, fr, t, args):
         return Adt("core::option::Option", "None", {})
     if c.startswith("core::panicking::") or n in ("panic_fmt", "panic", "begin_panic"):
         return "diverge"
+    if c.startswith("core::fmt::rt::") and n.startswith("new_"):
+        return d0
+    ck = t.get("callee_key") or c
+    if ck == "core::fmt::Arguments::new" and len(args) == 2:
+        tmpl = I.deref(args[0])
+        av = I.deref(args[1])
+        vals = [I.deref(x) for x in av.items] if isinstance(av, Vec) else []
+        if isinstance(tmpl, Bytes):
+            return FmtArgs(decode_template(tmpl.b, vals))
+        return FmtArgs([Unknown("template")])
+    if ck.startswith("core::fmt::Arguments::") and n in ("from_str", "new_const", "from_str_nonconst"):
+        return FmtArgs([d0 if isinstance(d0, str) else Unknown("fmt")])
+    if n in ("format", "format_inner", "must_use") and (c.startswith("alloc::fmt::") or c.startswith("core::hint::")):
+        if isinstance(d0, FmtArgs):
+            return strcat([p if isinstance(p, (str, StrCat, Sym)) else (str(p) if isinstance(p, int) and not isinstance(p, bool) else p) for p in d0.parts])
+        return d0
+    if n == "to_string" and isinstance(d0, (str, int, StrCat, Sym)):
+        return str(d0) if isinstance(d0, int) else d0
+    if (t.get("callee_trait") or "").startswith("core::ops::arith::") and len(args) == 2:
+        a, b = I.deref(args[0]), I.deref(args[1])
+        if isinstance(a, int) and isinstance(b, int) and not isinstance(a, bool):
+            return _binop({"add": "Add", "sub": "Sub", "mul": "Mul", "div": "Div", "rem": "Rem"}.get(n, n), a, b)
+    if n == "add" and sadt.endswith("string::String") and len(args) == 2:
+        return strcat([d0, I.deref(args[1])])
+    if n in ("push_str",) and len(args) == 2 and isinstance(args[0], Ref):
+        I.write_ref(args[0], strcat([d0, I.deref(args[1])]))
+        return Adt(None, None, {})
+    if n in ("as_str", "as_bytes", "borrow", "to_owned") and isinstance(d0, (str, StrCat)):
+        return d0
     if n in ("new_inclusive",) and len(args) == 2:
         return Adt("core::ops::range::RangeInclusive", "RangeInclusive", {"start": args[0], "end": args[1]})
-    if n in ("to_string", "from_str", "format", "new_display", "new_debug", "from_str_nonconst") or c.startswith("core::fmt::"):
-        if n == "to_string" and isinstance(d0, (str, int)):
-            return str(d0)
-        return Unknown("fmt")
+    if n in ("cast_signed", "cast_unsigned") and isinstance(d0, int):
+        return d0
+    if n in ("trailing_zeros", "leading_zeros", "count_ones") and isinstance(d0, int) and not isinstance(d0, bool):
+        import re as _re
+        mt = _re.search(r"[iu](8|16|32|64|128|size)", fr.f["locals"][t["args"][0]["pl"]["l"]]["ty"] if t["args"][0].get("pl") else "i64")
+        bits = 64 if not mt or mt.group(1) == "size" else int(mt.group(1))
+        u = d0 & ((1 << bits) - 1)
+        if n == "count_ones":
+            return bin(u).count("1")
+        if n == "trailing_zeros":
+            return bits if u == 0 else (u & -u).bit_length() - 1
+        return bits - u.bit_length()
     if n in ("saturating_sub",) and isinstance(d0, int) and isinstance(args[1], int):
         return max(0, d0 - args[1])
     if n in ("div_ceil",) and isinstance(d0, int) and isinstance(args[1], int) and args[1]:
